@@ -127,6 +127,15 @@ struct World {
     handlers: Vec<(usize, usize, H)>,
     real: bool,
     last_pre_count: usize,
+    /// buffered protocol lines of the current case
+    lines: Vec<String>,
+    /// environment's knowledge (Swarm + handlers): open connections, requests a handler holds,
+    /// inbound requests a handler has delivered and not completed, inbound ids used
+    env_open: Vec<(usize, usize)>,
+    env_conn_used: Vec<usize>,
+    env_out: Vec<(usize, usize, u64)>,
+    env_in: Vec<(usize, usize, u64)>,
+    env_in_used: Vec<u64>,
     channels: Vec<rr::ResponseChannel<Vec<u8>>>,
     receivers: Vec<futures::channel::oneshot::Receiver<Vec<u8>>>,
     waker: Waker,
@@ -151,6 +160,12 @@ impl World {
             handlers: vec![],
             real,
             last_pre_count: 0,
+            lines: vec![],
+            env_open: vec![],
+            env_conn_used: vec![],
+            env_out: vec![],
+            env_in: vec![],
+            env_in_used: vec![],
             channels: vec![],
             receivers: vec![],
             waker: Waker::from(Arc::new(NoWake)),
@@ -447,8 +462,55 @@ impl World {
         (hcore::list(&po), hcore::list(&pi))
     }
 
+    /// The environment contract (what a real Swarm + Handler can deliver): connection ids are
+    /// fresh; `ConnectionClosed` and handler events only for an open connection; a completion event
+    /// only for a request the handler of that connection holds; `Request` ids are fresh.
+    fn in_contract(&self, op: &Op) -> bool {
+        match op {
+            Op::Send(_) | Op::DialFail(..) | Op::RealFail(..) => true,
+            Op::Est(_, c, _) => !self.env_conn_used.contains(c),
+            Op::Closed(p, c) => self.env_open.contains(&(*p, *c)),
+            Op::HOut(p, c, id, _) => self.env_out.contains(&(*p, *c, *id)),
+            Op::HReq(p, c, id) => self.env_open.contains(&(*p, *c)) && !self.env_in_used.contains(id),
+            Op::HIn(p, c, id, k) => {
+                self.env_open.contains(&(*p, *c))
+                    && (self.env_in.contains(&(*p, *c, *id))
+                        // the stream failed / timed out before the request was read: an id the
+                        // behaviour never saw (and never will)
+                        || ((*k == "timeout" || *k == "io") && !self.env_in_used.contains(id)))
+            }
+        }
+    }
+
+    fn env_update(&mut self, op: &Op, handed: &[(usize, usize, u64)]) {
+        match op {
+            Op::Est(p, c, _) => {
+                self.env_open.push((*p, *c));
+                self.env_conn_used.push(*c);
+            }
+            Op::Closed(p, c) => {
+                self.env_open.retain(|x| x != &(*p, *c));
+                self.env_out.retain(|x| !(x.0 == *p && x.1 == *c));
+                self.env_in.retain(|x| !(x.0 == *p && x.1 == *c));
+            }
+            Op::HOut(p, c, id, _) => self.env_out.retain(|x| x != &(*p, *c, *id)),
+            Op::HReq(p, c, id) => {
+                self.env_in_used.push(*id);
+                self.env_in.push((*p, *c, *id));
+            }
+            Op::HIn(p, c, id, _) => {
+                if !self.env_in_used.contains(id) {
+                    self.env_in_used.push(*id);
+                }
+                self.env_in.retain(|x| x != &(*p, *c, *id));
+            }
+            _ => {}
+        }
+        self.env_out.extend_from_slice(handed);
+    }
+
     /// performs one op; returns the `(p, c, id)` triples of requests handed to a handler by it
-    fn step(&mut self, out: &mut Out, op: &Op) -> Vec<(usize, usize, u64)> {
+    fn step(&mut self, op: &Op) -> Vec<(usize, usize, u64)> {
         let op = match op {
             Op::RealFail(p, c, k) => match self.real_fail(*p, *c, k) {
                 Some(o) => o,
@@ -456,7 +518,7 @@ impl World {
             },
             o => o.clone(),
         };
-        out.op(&op.tok());
+        self.lines.push(format!("op {}", op.tok()));
         let (ret, pre, panic) = self.apply(&op);
         let mut evs = self.drain();
         if let Op::Closed(..) = op {
@@ -482,8 +544,8 @@ impl World {
         } else {
             hcore::list(&pre)
         };
-        out.imp(&format!(
-            "ret={} pre={} evs={} panic={} po={} pi={}",
+        self.lines.push(format!(
+            "impl ret={} pre={} evs={} panic={} po={} pi={}",
             ret.map(|x| x.to_string()).unwrap_or("-".into()),
             pre_tok,
             hcore::list(&evs),
@@ -491,18 +553,31 @@ impl World {
             po,
             pi
         ));
+        self.env_update(&op, &handed);
         handed
+    }
+
+    fn flush(&mut self, out: &mut Out) {
+        for l in self.lines.drain(..) {
+            out.raw(&l);
+        }
     }
 }
 
-fn run_case(out: &mut Out, idx: u64, cls: &str, nt: bool, ops: &[Op]) {
+/// `strict`: the case is emitted only if every op is in-contract (returns false otherwise)
+fn run_case(out: &mut Out, idx: u64, cls: &str, nt: bool, ops: &[Op], strict: bool) -> bool {
     let real = cls == "realh";
-    out.case(idx, &format!("{cls} nt={} dbg={} np={NP} real={}", nt as u8, cfg!(debug_assertions) as u8, real as u8));
     let mut w = World::new(real);
     for op in ops {
-        w.step(out, op);
+        if strict && !w.in_contract(op) {
+            return false;
+        }
+        w.step(op);
     }
+    out.case(idx, &format!("{cls} nt={} dbg={} np={NP} real={}", nt as u8, cfg!(debug_assertions) as u8, real as u8));
+    w.flush(out);
     out.end();
+    true
 }
 
 /// alphabet for the bounded-exhaustive enumeration: one peer, two connections, ids 1 and 2
@@ -537,8 +612,9 @@ fn enumerate(out: &mut Out, idx: &mut u64, alpha: &[Op], len: usize, cls: &str) 
     loop {
         let ops: Vec<Op> = digits.iter().map(|d| alpha[*d].clone()).collect();
         let nt = ops.iter().any(|o| matches!(o, Op::Send(_) | Op::HReq(..)));
-        run_case(out, *idx, cls, nt, &ops);
-        *idx += 1;
+        if run_case(out, *idx, cls, nt, &ops, true) {
+            *idx += 1;
+        }
         let mut i = 0;
         loop {
             if i == len {
@@ -554,19 +630,16 @@ fn enumerate(out: &mut Out, idx: &mut u64, alpha: &[Op], len: usize, cls: &str) 
     }
 }
 
-/// random interleavings: mostly well-formed (handler events for ids the behaviour reports
-/// pending), with late / duplicate / unknown handler events, unknown closes and reused ids mixed in.
+/// random in-contract interleavings over 3 peers: requests queued / routed to connections,
+/// connections opening and closing with requests in flight (handler events delivered BEFORE the
+/// `ConnectionClosed`, as the Swarm's per-connection FIFO guarantees), dial failures of every
+/// kind, every completion kind, inbound requests, stream failures before a request was read.
 fn random_case(out: &mut Out, idx: u64, rng: &mut Rng, real: bool) {
     let cls = if real { "realh" } else { "random" };
-    out.case(idx, &format!("{cls} nt=1 dbg={} np={NP} real={}", cfg!(debug_assertions) as u8, real as u8));
     let mut w = World::new(real);
     let len = 8 + rng.usize(40);
     let mut next_c = 1usize;
     let mut next_in = 1u64;
-    let mut conns: Vec<(usize, usize)> = vec![]; // currently open (harness view)
-    let mut past: Vec<(usize, usize)> = vec![]; // every connection ever opened
-    let mut out_hist: Vec<(usize, usize, u64)> = vec![]; // (p, c, id) ever notified / preloaded
-    let mut in_hist: Vec<(usize, usize, u64)> = vec![];
     let outk = ["response", "timeout", "unsupported", "io"];
     let ink = ["sent", "omission", "timeout", "io"];
     for _ in 0..len {
@@ -575,20 +648,15 @@ fn random_case(out: &mut Out, idx: u64, rng: &mut Rng, real: bool) {
         let op = if roll < 24 {
             Op::Send(p)
         } else if roll < 38 {
-            let c = if rng.chance(1, 25) && !past.is_empty() { rng.pick(&past).1 } else { next_c };
+            let c = next_c;
             next_c += 1;
-            conns.push((p, c));
-            past.push((p, c));
             Op::Est(p, c, rng.bool())
         } else if roll < 48 {
-            if !conns.is_empty() && rng.chance(9, 10) {
-                let i = rng.usize(conns.len());
-                let (p, c) = conns.remove(i);
-                Op::Closed(p, c)
-            } else if rng.chance(1, 3) {
-                Op::Closed(p, rng.usize(next_c + 1))
-            } else {
+            if w.env_open.is_empty() {
                 Op::Send(p)
+            } else {
+                let (p, c) = *rng.pick(&w.env_open);
+                Op::Closed(p, c)
             }
         } else if roll < 56 {
             let k = *rng.pick(&["cond", "noaddr", "aborted", "noaddr"]);
@@ -596,66 +664,45 @@ fn random_case(out: &mut Out, idx: u64, rng: &mut Rng, real: bool) {
         } else if roll < 76 {
             // outbound completion
             if real {
-                if conns.is_empty() {
+                if w.env_open.is_empty() {
                     Op::Send(p)
                 } else {
-                    let (p, c) = *rng.pick(&conns);
+                    let (p, c) = *rng.pick(&w.env_open);
                     Op::RealFail(p, c, *rng.pick(&["timeout", "unsupported", "io"]))
                 }
+            } else if w.env_out.is_empty() {
+                Op::Send(p)
             } else {
-                let pend: Vec<(usize, usize, u64)> = out_hist
-                    .iter()
-                    .copied()
-                    .filter(|(p, _, id)| w.b.is_pending_outbound(&w.peers[*p], &hk::outbound_id(*id)))
-                    .collect();
-                let k = *rng.pick(&outk);
-                if !pend.is_empty() && rng.chance(4, 5) {
-                    let (p, c, id) = *rng.pick(&pend);
-                    Op::HOut(p, c, id, k)
-                } else if !out_hist.is_empty() && rng.chance(2, 3) {
-                    // late or duplicate
-                    let (p, c, id) = *rng.pick(&out_hist);
-                    Op::HOut(p, c, id, k)
-                } else {
-                    Op::HOut(p, rng.usize(next_c + 1), 1 + rng.below(w.issued + 2), k)
-                }
+                let (p, c, id) = *rng.pick(&w.env_out);
+                Op::HOut(p, c, id, *rng.pick(&outk))
             }
         } else if roll < 88 {
-            // inbound request
-            if !conns.is_empty() && rng.chance(9, 10) {
-                let (p, c) = *rng.pick(&conns);
-                let id = if rng.chance(1, 30) && next_in > 1 { 1 + rng.below(next_in - 1) } else { next_in };
-                next_in += 1;
-                in_hist.push((p, c, id));
-                Op::HReq(p, c, id)
+            // inbound request on an open connection, fresh id
+            if w.env_open.is_empty() {
+                Op::Est(p, { next_c += 1; next_c - 1 }, false)
             } else {
-                // request event of a connection the behaviour no longer knows
+                let (p, c) = *rng.pick(&w.env_open);
                 let id = next_in;
-                next_in += 1;
-                let (p, c) = if past.is_empty() { (p, 77) } else { *rng.pick(&past) };
-                in_hist.push((p, c, id));
+                next_in += 1 + rng.below(2);
                 Op::HReq(p, c, id)
             }
+        } else if !w.env_in.is_empty() && rng.chance(5, 6) {
+            let (p, c, id) = *rng.pick(&w.env_in);
+            Op::HIn(p, c, id, *rng.pick(&ink))
+        } else if !w.env_open.is_empty() {
+            // inbound stream failed / timed out before its request was read
+            let (p, c) = *rng.pick(&w.env_open);
+            let id = next_in;
+            next_in += 1;
+            Op::HIn(p, c, id, *rng.pick(&["timeout", "io"]))
         } else {
-            let pend: Vec<(usize, usize, u64)> = in_hist
-                .iter()
-                .copied()
-                .filter(|(p, _, id)| w.b.is_pending_inbound(&w.peers[*p], &hk::inbound_id(*id)))
-                .collect();
-            let k = *rng.pick(&ink);
-            if !pend.is_empty() && rng.chance(4, 5) {
-                let (p, c, id) = *rng.pick(&pend);
-                Op::HIn(p, c, id, k)
-            } else if !in_hist.is_empty() {
-                let (p, c, id) = *rng.pick(&in_hist);
-                Op::HIn(p, c, id, k)
-            } else {
-                Op::HIn(p, rng.usize(next_c + 1), 1 + rng.below(3), k)
-            }
+            Op::Send(p)
         };
-        let handed = w.step(out, &op);
-        out_hist.extend(handed);
+        assert!(w.in_contract(&op), "generator produced an out-of-contract op {op:?}");
+        w.step(&op);
     }
+    out.case(idx, &format!("{cls} nt=1 dbg={} np={NP} real={}", cfg!(debug_assertions) as u8, real as u8));
+    w.flush(out);
     out.end();
 }
 
@@ -665,7 +712,7 @@ pub fn run(args: &Args, out: &mut Out) {
             let cls = hdr.get(1).map(|s| s.as_str()).unwrap_or("replay");
             let cls = if cls == "realh" { "realh" } else { "replay" };
             let ops: Vec<Op> = ops.iter().map(|t| Op::parse(t)).collect();
-            run_case(out, i as u64, cls, true, &ops);
+            run_case(out, i as u64, cls, true, &ops, false);
         }
         return;
     }
